@@ -108,6 +108,16 @@ func GenSProgram(t *rapid.T, cfg SGenCfg) SProgram {
 			// the usual recovery: the detached node comes back, is added and rebuilt
 			n := rapid.IntRange(0, nodes-1).Draw(t, "node")
 			p.Ops = append(p.Ops, SOp{K: "reconnect", Node: n}, SOp{K: "add", Node: n})
+			// I/O (with faults) while the replica is still rebuilding
+			for k := rapid.IntRange(0, 3).Draw(t, "iowhilewo"); k > 0; k-- {
+				off := rapid.Int64Range(0, total-1).Draw(t, "off")
+				l := rapid.Int64Range(1, min64(total-off, 24)).Draw(t, "len")
+				if rapid.IntRange(0, 2).Draw(t, "rw") == 0 || cfg.W["write"] == 0 {
+					p.Ops = append(p.Ops, SOp{K: "read", Off: off, Len: l, Reps: rapid.IntRange(1, 3).Draw(t, "reps"), Out: genOutcomes(t, nodes, cfg, &slowLeft)})
+				} else {
+					p.Ops = append(p.Ops, SOp{K: "write", Off: off, Len: l, Seed: rapid.IntRange(1, 250).Draw(t, "seed"), Out: genOutcomes(t, nodes, cfg, &slowLeft)})
+				}
+			}
 			if rapid.IntRange(0, 3).Draw(t, "promote") > 0 {
 				o := SOp{K: "promote", Node: n}
 				if cfg.RestFail && rapid.IntRange(0, 4).Draw(t, "cpfail") == 0 {
@@ -160,6 +170,24 @@ func GenSProgram(t *rapid.T, cfg SGenCfg) SProgram {
 			}
 			p.Ops = append(p.Ops, SOp{K: "sysrebuild", Node: n, N: int64(rapid.IntRange(0, 12).Draw(t, "fgwrites")), Seed: rapid.IntRange(1, 5000).Draw(t, "seed"),
 				Len: int64(rapid.IntRange(0, 400).Draw(t, "gapms")), Reps: rapid.IntRange(0, 1).Draw(t, "aligned")})
+		case "ctlresize":
+			o := SOp{K: "ctlresize"}
+			switch rapid.IntRange(0, 9).Draw(t, "rsclass") {
+			case 0, 1, 2, 3, 4:
+				blocks += rapid.IntRange(1, 16).Draw(t, "grow")
+				total = int64(blocks) * 8
+				o.N = int64(blocks)
+			case 5:
+				o.N = int64(blocks)
+			case 6:
+				o.N = int64(rapid.IntRange(0, blocks-1).Draw(t, "shrink"))
+			case 7:
+				o.N = int64(blocks + 4)
+				o.Name = "othervol"
+			default:
+				o.Str = rapid.SampledFrom([]string{"garbage", "12x", "-5", "1e3q"}).Draw(t, "rsgarbage")
+			}
+			p.Ops = append(p.Ops, o)
 		case "race":
 			p.Ops = append(p.Ops, SOp{K: "race", Node: rapid.IntRange(1, 3).Draw(t, "writers"), N: int64(rapid.IntRange(3, 40).Draw(t, "per")),
 				Reps: rapid.IntRange(1, 3).Draw(t, "snaps"), Off: int64(rapid.IntRange(0, 3000).Draw(t, "delay")), Len: int64(rapid.IntRange(0, 2000).Draw(t, "spacing"))})
